@@ -65,6 +65,7 @@ def stages():
     add("RicianFading(K=1,Tc=2,snr_db=10)", lambda: RicianFadingChannel(k_factor=1.0, coherence_time=2, snr_db=10.0), [(2,)], (False,), quick=False)
     add("Nonlinear(x-0.1x^3)", lambda: NonlinearChannel(cubic), [(3,), (2, 2)], (False, True))
     add("Nonlinear(x-0.1x^3,cartesian)", lambda: NonlinearChannel(cubic, complex_mode="cartesian"), [(2,)], (True,))
+    add("Nonlinear(x-0.1x^3,polar)", lambda: NonlinearChannel(cubic, complex_mode="polar"), [(2,)], (True,), xmax=1.5)
     add("Nonlinear(x-0.1x^3,noise snr_db=10)", lambda: NonlinearChannel(cubic, add_noise=True, snr_db=10.0), [(2,)], (False, True), xmax=1.5)
     add("Nonlinear(x-0.1x^3,noise P=0.1)", lambda: NonlinearChannel(cubic, add_noise=True, avg_noise_power=0.1), [(3,)], (False,), quick=False)
     add("TotalPower(2.0)", lambda: TotalPowerConstraint(total_power=2.0), [(3,), (1, 3), (2, 2), (2, 1, 2)], (False, True))
